@@ -1,5 +1,5 @@
 //! C13 — serialisation round trip (K1) and single-field corruptions of the JSON (malformed stream).
-use crate::common::{catch, fingerprint, Ids, Out, Rng};
+use crate::common::{catch, fingerprint, hx, Ids, Out, Rng};
 use crate::gens;
 use crate::hist::{self, World};
 use crate::tri;
@@ -49,12 +49,21 @@ fn roundtrip<const D: usize>(id: &str, w: &mut World<D>, gp_int: bool, rng: &mut
                     let mut p = [0.0f64; D];
                     for i in 0..D { p[i] = pi[i] as f64; }
                     let v = w.vertex(p, rng);
+                    if std::env::var_os("VH_DEBUG").is_some() {
+                        let mut c1 = w.dt.clone();
+                        let mut c2 = dt2.clone();
+                        eprintln!("DBG {id} p={pi:?} clone-of-orig: {:?}  clone-of-copy: {:?}", c1.insert(v).map(|_| ()), c2.insert(v).map(|_| ()));
+                    }
                     let r1 = catch(|| w.dt.insert(v).is_ok());
                     let r2 = catch(|| dt2.insert(v).is_ok());
                     let f1 = fingerprint(w.dt.tds());
                     let f2 = fingerprint(dt2.tds());
-                    if r1 != r2 { same_suffix = format!("0 insert of a general-position point: original {r1:?}, deserialised copy {r2:?}"); }
-                    else if f1 != f2 { same_suffix = "0 after the same general-position insertion the two copies differ".into(); }
+                    if r1 != r2 { same_suffix = format!("0 insert of a general-position point: original {r1:?}, deserialised copy {r2:?}"); break; }
+                    else if f1 != f2 {
+                        if std::env::var_os("VH_DEBUG").is_some() { eprintln!("SUFFIX DIFF {id} r={r1:?} p={pi:?}\nORIG {f1}\nCOPY {f2}"); }
+                        same_suffix = "0 after the same general-position insertion the two copies differ".into();
+                        break;
+                    }
                 }
             }
             obs.push(("key_resolves".into(), same_suffix));
@@ -116,12 +125,72 @@ fn corrupt(doc: &Value, kind: usize, rng: &mut Rng) -> Option<(Value, &'static s
     Some((d, name))
 }
 
+
+/// abstract content of a JSON document for the decode model (kind `sdoc`); `None` when the document
+/// is not expressible (wrong JSON types)
+fn emit_sdoc<const D: usize>(id: &str, name: &str, doc: &Value, loaded: Option<&T<D>>, verdict: &str, out: &mut Out) {
+    let mut ids = Ids::default();
+    let mut lines: Vec<String> = Vec::new();
+    let pid = |s: &str, ids: &mut Ids| -> Option<usize> { uuid::Uuid::parse_str(s).ok().map(|u| ids.id(u)) };
+    let Some(vs) = doc.get("vertices").and_then(|v| v.as_array()) else { return };
+    for slot in vs {
+        let val = &slot["value"];
+        if val.is_null() { continue; }
+        let Some(u) = val.get("uuid").and_then(|u| u.as_str()) else { return };
+        let Some(vid) = pid(u, &mut ids) else { return };
+        let Some(pt) = val.get("point").and_then(|p| p.as_array()) else { return };
+        let coords: Vec<String> = pt.iter().map(|x| x.as_f64().map_or("null".to_string(), hx)).collect();
+        lines.push(format!("dv {vid} {}", coords.join(" ")));
+    }
+    let Some(cs) = doc.get("cells").and_then(|v| v.as_array()) else { return };
+    for slot in cs {
+        let val = &slot["value"];
+        if val.is_null() { continue; }
+        let Some(u) = val.get("uuid").and_then(|u| u.as_str()) else { return };
+        let Some(cid) = pid(u, &mut ids) else { return };
+        lines.push(format!("dc {cid}"));
+    }
+    let Some(tab) = doc.get("cell_vertices").and_then(|v| v.as_object()) else { return };
+    for (k, l) in tab {
+        let Some(cid) = pid(k, &mut ids) else { return };
+        let Some(l) = l.as_array() else { return };
+        let mut row = format!("dt {cid}");
+        for x in l {
+            let Some(v) = x.as_str().and_then(|x| pid(x, &mut ids)) else { return };
+            row.push_str(&format!(" {v}"));
+        }
+        lines.push(row);
+    }
+    out.case(&format!("{id}_{name}_doc"), "sdoc", &format!("D={D} corruption={name}"));
+    for l in lines { out.line(&l); }
+    out.obs("impl", verdict);
+    if let Some(tds) = loaded {
+        crate::common::export_tds(tds, &mut ids, "", out);
+    }
+    out.end();
+}
+
 fn malformed<const D: usize>(id: &str, w: &mut World<D>, rng: &mut Rng, out: &mut Out) {
     let Ok(Ok(doc)) = catch(|| serde_json::to_value(w.dt.tds())) else { return };
+    {
+        let text = doc.to_string();
+        match catch(|| serde_json::from_str::<T<D>>(&text).map_err(|e| e.to_string())) {
+            Ok(Ok(tds)) => emit_sdoc::<D>(id, "intact", &doc, Some(&tds), "loaded", out),
+            Ok(Err(_)) => emit_sdoc::<D>(id, "intact", &doc, None, "rejected", out),
+            Err(_) => emit_sdoc::<D>(id, "intact", &doc, None, "panic", out),
+        }
+    }
     for kind in 0..13 {
         let Some((bad, name)) = corrupt(&doc, kind, rng) else { continue };
         let text = bad.to_string();
         let r = catch(|| serde_json::from_str::<T<D>>(&text).map_err(|e| e.to_string()));
+        if matches!(kind, 0 | 1 | 2 | 3 | 4 | 5 | 7 | 9 | 11) {
+            match &r {
+                Ok(Ok(tds)) => emit_sdoc::<D>(id, name, &bad, Some(tds), "loaded", out),
+                Ok(Err(_)) => emit_sdoc::<D>(id, name, &bad, None, "rejected", out),
+                Err(_) => emit_sdoc::<D>(id, name, &bad, None, "panic", out),
+            }
+        }
         match r {
             Ok(Ok(tds)) => {
                 // loaded: it must then be a structurally consistent complex (Levels 1 and 2)
@@ -171,7 +240,7 @@ fn one<const D: usize>(hid: usize, rng: &mut Rng, out: &mut Out) {
 
 pub fn run(cfg: &Cfg, rng: &mut Rng, out: &mut Out) {
     let thorough = cfg.tier == "thorough";
-    let n = if thorough { 60 } else { 6 };
+    let n = if thorough { 60 } else { 16 };
     for h in 0..n {
         one::<2>(h, rng, out);
         one::<3>(h, rng, out);
